@@ -173,6 +173,9 @@ class XslGen:
             rtfs = [k for k, t in scope.items() if t == "rtf"]
             if rtfs and self.r.random() < 0.4:
                 return {"i": "copy-of", "sel": var(self.r.choice(rtfs))}
+            if self.r.random() < 0.3:       # whole subtrees (3.4: stripped text nodes are not in them), comments and PIs included
+                return {"i": "copy-of", "sel": self.r.choice([path([], abs_=True), path([ch(T_ANY)], abs_=True), path([step("self", T_NODE)]), path([step("parent", T_NODE)]),
+                                                              path([step("ancestor-or-self", T_ANY, abbr=False)]), path([ch(T_NODE)])])}
             return {"i": "copy-of", "sel": self.expr(scope, self.r.choice(["ns", "ns", "str", "num"]), d=1)}
         if r < 0.955:
             pool = [P(ch(t_name("a"))), P(ch(t_name("b"))), P(ch(T_ANY)), bin_("|", P(ch(t_name("a"))), P(ch(t_name("b")))), P(ch(T_TEXT)), P(ch(T_ANY), ch(t_name("b")))]
@@ -364,6 +367,39 @@ def sorting_stylesheet(rng):
         {"rid": 2, "hasMatch": True, "match": bin_("|", P_(ch(T_NODE)), P_(at(T_ANY))), "name": "", "mode": "s", "hasPrio": False, "prio": z, "params": [], "body": show},
     ]
     return {"templates": templates, "gvars": [], "keys": [], "strip": []}
+
+
+def stripcopy_stylesheet(rng):
+    """The strip / copy family (3.4 with 7.5 and 11.3): strip-space / preserve-space declarations and every way a subtree reaches
+    the result - xsl:copy-of of the root, of elements, of node lists; the identity rule (xsl:copy + apply-templates over
+    node() and @*); value-of of string values; counts of text nodes - the stripped text nodes are in none of them."""
+    P_ = lambda *steps, **kw: path(list(steps), **kw)
+    z = {"k": "fin", "neg": False, "m": 0}
+    strip = [{"strip": rng.random() < 0.75, "name": nm} for nm in rng.sample(["*", "a", "b", "c"], rng.choice([1, 2, 2]))]
+    subtree = lambda: rng.choice([P_(abs_=True), P_(ch(T_ANY), abs_=True), P_(ch(T_ANY), ch(T_ANY), abs_=True), P_(DOS, ch(t_name("a")), abs_=True),
+                                  P_(DOS, ch(t_name("b")), abs_=True), P_(ch(T_ANY), ch(T_NODE), abs_=True), P_(DOS, ch(T_TEXT), abs_=True),
+                                  P_(DOS, ch(T_ANY, num(1)), abs_=True)])
+    body = []
+    for _ in range(rng.choice([1, 2, 3])):
+        r = rng.random()
+        if r < 0.4:
+            body.append({"i": "lre", "name": cps("c"), "attrs": [], "body": [{"i": "copy-of", "sel": subtree()}]})
+        elif r < 0.6:
+            body.append({"i": "lre", "name": cps("i"), "attrs": [], "body": [{"i": "apply-templates", "hasSel": True, "sel": subtree(), "mode": "id", "sorts": [], "params": []}]})
+        elif r < 0.8:
+            body.append({"i": "lre", "name": cps("f"), "attrs": [], "body": [{"i": "for-each", "sel": subtree(), "sorts": [], "body": [
+                {"i": "text", "v": cps("[")}, {"i": "value-of", "sel": fn("count", P_(ch(T_NODE)))}, {"i": "text", "v": cps(":")},
+                {"i": "copy-of", "sel": P_(step("self", T_NODE))}, {"i": "text", "v": cps("]")}]}]})
+        else:
+            body.append({"i": "lre", "name": cps("n"), "attrs": [], "body": [{"i": "value-of", "sel": fn("count", P_(DOS, ch(T_TEXT), abs_=True))}, {"i": "text", "v": cps("|")},
+                                                                             {"i": "value-of", "sel": fn("string-length", P_(ch(T_ANY), abs_=True))}]})
+    templates = [
+        {"rid": 1, "hasMatch": True, "match": P_(abs_=True), "name": "", "mode": "", "hasPrio": False, "prio": z, "params": [],
+         "body": [{"i": "lre", "name": cps("out"), "attrs": [], "body": body}]},
+        {"rid": 2, "hasMatch": True, "match": bin_("|", P_(ch(T_NODE)), P_(at(T_ANY))), "name": "", "mode": "id", "hasPrio": False, "prio": z, "params": [],
+         "body": [{"i": "copy", "body": [{"i": "apply-templates", "hasSel": True, "sel": bin_("|", P_(ch(T_NODE)), P_(at(T_ANY))), "mode": "id", "sorts": [], "params": []}]}]},
+    ]
+    return {"templates": templates, "gvars": [], "keys": [], "strip": strip}
 
 
 def imports_stylesheet(rng):
